@@ -522,6 +522,12 @@ func (e *FnEnc) binopTerm(f *frame, op token.Token, a, b SV, ta, tb types.Type, 
 			n := e.define(e.fresh("scat"), "Str", fmt.Sprintf("(scat %s %s)", x, y))
 			if f != nil {
 				f.assume(fmt.Sprintf("(= (slen %s) (bvadd (slen %s) (slen %s)))", n, x, y))
+				// bytes of short concatenations (quantifier-free): the first four bytes of x
+				// and the first four bytes of y keep their values at their new positions
+				for k := int64(0); k < 4; k++ {
+					f.assume(fmt.Sprintf("(=> (bvsgt (slen %s) %s) (= (sbyte %s %s) (sbyte %s %s)))", x, bvLit(k, 64), n, bvLit(k, 64), x, bvLit(k, 64)))
+					f.assume(fmt.Sprintf("(=> (bvsgt (slen %s) %s) (= (sbyte %s (bvadd (slen %s) %s)) (sbyte %s %s)))", y, bvLit(k, 64), n, x, bvLit(k, 64), y, bvLit(k, 64)))
+				}
 			}
 			return n
 		case token.EQL, token.NEQ:
